@@ -174,6 +174,9 @@ type Obs struct {
 	// The key samples (random) are carried separately in that case.
 	Same  bool      `json:"-"`
 	Samps []ObsSamp `json:"-"`
+	// Skip: no read-back was taken after this request (it ran concurrently with others; the state is checked at the
+	// next event that has one)
+	Skip bool `json:"-"`
 }
 
 type ObsSamp struct {
@@ -182,6 +185,9 @@ type ObsSamp struct {
 }
 
 func (o Obs) MarshalJSON() ([]byte, error) {
+	if o.Skip {
+		return []byte(`{"skip":true}`), nil
+	}
 	if o.Same {
 		return json.Marshal(map[string]interface{}{"same": true, "samps": o.Samps})
 	}
